@@ -54,5 +54,40 @@ def mirror_inductive(timeout=900):
     return out
 
 
+def mirror_tlaps(timeout=900):
+    """TLAPS: Mirror /\\ DefKeyed inductive for ARBITRARY carrier sets (spec/MirrorIndProofs.tla).  -> dict for the evidence file"""
+    files = [os.path.join(C.SPEC, "MirrorInd.tla"), os.path.join(C.SPEC, "MirrorIndProofs.tla")]
+    h = hashlib.sha256(b"".join(open(f, "rb").read() for f in files)).hexdigest()[:20]
+    cdir = os.path.join(C.BUILD, "tlc-cache")
+    os.makedirs(cdir, exist_ok=True)
+    cp = os.path.join(cdir, "tlaps-MirrorInd-%s.json" % h)
+    if os.path.exists(cp):
+        out = json.load(open(cp))
+        out["cached"] = True
+        return out
+    if shutil.which("tlapm") is None:
+        raise C.ToolError("tlapm is not on PATH")
+    wd = os.path.join(C.BUILD, "tmp", "tlaps-%d" % os.getpid())
+    shutil.rmtree(wd, ignore_errors=True)
+    os.makedirs(wd)
+    for f in files:
+        shutil.copy(f, wd)
+    t = time.time()
+    p = subprocess.run(["timeout", str(timeout), "tlapm", "--threads", "8", "MirrorIndProofs.tla"], cwd=wd, env=C.scrubbed_env(None),
+                       stdout=subprocess.PIPE, stderr=subprocess.STDOUT, text=True)
+    shutil.rmtree(wd, ignore_errors=True)
+    import re
+    m = re.search(r"All (\d+) obligations? proved", p.stdout or "")
+    if not m:
+        raise C.ToolError("tlapm on MirrorIndProofs.tla did not prove every obligation (exit %s): %s" % (p.returncode, (p.stdout or "")[-800:]))
+    out = {"module": "MirrorIndProofs", "obligations": int(m.group(1)), "discharged": int(m.group(1)),
+           "theorems": ["InitCore", "StepCore", "Safety: Spec => [](Mirror /\\ DefKeyed)"], "wall_s": round(time.time() - t, 1), "cached": False}
+    with open(cp + ".%d" % os.getpid(), "w") as fh:
+        json.dump(out, fh)
+    os.replace(cp + ".%d" % os.getpid(), cp)
+    return out
+
+
 if __name__ == "__main__":
+    print(json.dumps(mirror_tlaps(), indent=1))
     print(json.dumps(mirror_inductive(), indent=1))
